@@ -6,57 +6,34 @@
     The disaggregate side is Model/Units.v over Q.  Adapter: a Q-valued sub-period cell is turned into a
     Base cell (values n/1024) when every value is exactly representable ([cell_of_ucell]); the theorem is
     stated for disaggregations that are representable in both. *)
-From Coq Require Import ZArith QArith Qabs List Bool Lia Lqa Arith.
+From Coq Require Import ZArith QArith Qabs List Bool Lia Lqa Arith Permutation.
 From Bermuda Require Import Model.Base Lib.Calendar Model.Summarize Model.Basis Model.Aggregate
-  Proofs.SummarizeLib Proofs.Aggregate.
+  Proofs.SummarizeLib Proofs.Aggregate Proofs.CalendarP.
 From Bermuda Require Import Model.Blend Model.Units Proofs.BlendP Proofs.UnitsP Proofs.UnitsQ.
 Import ListNotations.
 Local Open Scope Z_scope.
 
-(* ================================================================== 1. month starts (ids 0..1571) *)
-Definition month_start_ok (i : Z) : bool :=
-  (day_of (month_start i) =? 1) && negb (is_month_end (month_start i)).
-Lemma month_starts_ok : all_ids 1572 0 month_start_ok = true.
-Proof. vm_compute. reflexivity. Qed.
-Lemma days_in_month_pos y m : 1 <= days_in_month y m.
-Proof.
-  unfold days_in_month. destruct (m =? 2); [destruct (is_leap y); lia|].
-  destruct ((m =? 4) || (m =? 6) || (m =? 9) || (m =? 11)); lia.
-Qed.
-(* add_months on the first day of a month is the first day k months later *)
-Lemma addm_month_start i k : 0 <= i <= 1571 -> addm (month_start i) k = month_start (i + k).
-Proof.
-  intro Hi. pose proof (all_ids_spec _ _ _ month_starts_ok i ltac:(lia)) as H.
-  unfold month_start_ok in H. apply andb_prop in H. destruct H as [H1 H2].
-  apply Z.eqb_eq in H1. apply negb_true_iff in H2.
-  destruct (month_end_facts i Hi) as (_ & _ & _ & E & _).
-  unfold addm. rewrite E, H2, H1. rewrite Z.min_l by apply days_in_month_pos. reflexivity.
-Qed.
-Lemma month_end_succ i : month_end i = month_start (i + 1) - 1.
+(* ================================================================== 1. month arithmetic (any year >= 1) *)
+(* wp-basis's Proofs/CalendarP.v: unbounded facts about Lib/Calendar.v for month ids >= MINID (January of year 1).
+   Calendar.addm equals the source's float-based add_months only where C12's bridge theorem says so
+   (month-aligned dates of 1970-2100); beyond that range the statements below are about the model. *)
+Lemma month_end_pred i : month_end i = month_start (i + 1) - 1.
 Proof. reflexivity. Qed.
-Lemma month_end_le i j : 0 <= i -> j <= 1572 -> i <= j -> month_end i <= month_end j.
-Proof.
-  intros Hi Hj Hij. destruct (Z.eq_dec i j) as [->|Hne]; [lia|].
-  pose proof (month_end_increasing i j Hi Hj ltac:(lia)). lia.
-Qed.
-Lemma month_start_lt i j : 1 <= i -> j <= 1573 -> i < j -> month_start i < month_start j.
-Proof.
-  intros Hi Hj Hij. pose proof (month_end_increasing (i - 1) (j - 1) ltac:(lia) ltac:(lia) ltac:(lia)) as H.
-  rewrite !month_end_succ in H. replace (i - 1 + 1) with i in H by lia. replace (j - 1 + 1) with j in H by lia. lia.
-Qed.
+Lemma month_end_le i j : i <= j -> month_end i <= month_end j.
+Proof. intro H. rewrite !month_end_pred. pose proof (CalendarP.month_start_mono (i + 1) (j + 1) ltac:(lia)). lia. Qed.
 
 (* ================================================================== 2. sub-periods of a month-aligned cell *)
-(* c covers the months a .. a+R-1, R = n*r *)
+(* c covers the months a .. a+R-1 *)
 Definition aligned (c : cell) (a R : Z) : Prop :=
   ps c = month_start a /\ pe c = month_end (a + R - 1).
 Definition sub_k (a r k : Z) : Z * Z := (month_start (a + k * r), month_end (a + (k + 1) * r - 1)).
 
 Lemma subperiods_aligned c a (r n : nat) :
-  0 <= a <= 1571 -> ps c = month_start a ->
+  MINID <= a -> ps c = month_start a ->
   subperiods r n c = map (fun k : nat => sub_k a (Z.of_nat r) (Z.of_nat k)) (seq 0 n).
 Proof.
-  intros Ha Hps. unfold subperiods, sub_k. apply map_ext. intro k. rewrite Hps, !addm_month_start by exact Ha.
-  rewrite month_end_succ, !Nat2Z.inj_mul, Nat2Z.inj_add. change (Z.of_nat 1) with 1.
+  intros Ha Hps. unfold subperiods, sub_k. apply map_ext. intro k. rewrite Hps, !CalendarP.addm_month_start by exact Ha.
+  rewrite month_end_pred, !Nat2Z.inj_mul, Nat2Z.inj_add. change (Z.of_nat 1) with 1.
   replace (a + (Z.of_nat k + 1) * Z.of_nat r - 1 + 1) with (a + (Z.of_nat k + 1) * Z.of_nat r) by ring. reflexivity.
 Qed.
 Lemma filter_all_true {A} (p : A -> bool) l : (forall x, In x l -> p x = true) -> filter p l = l.
@@ -65,26 +42,27 @@ Proof.
   intros y Hy. apply H. right. exact Hy.
 Qed.
 Lemma observable_all c a (r n : nat) :
-  1 <= a <= 1571 -> (0 < r)%nat -> a + Z.of_nat (n * r) <= 1572 -> aligned c a (Z.of_nat (n * r)) -> pe c <= ev c ->
+  MINID <= a -> (0 < r)%nat -> aligned c a (Z.of_nat (n * r)) -> pe c <= ev c ->
   observable c (subperiods r n c) = subperiods r n c.
 Proof.
-  intros Ha Hr Hb [Hps Hpe] Hev. rewrite (subperiods_aligned c a r n) by (auto; lia).
+  intros Ha Hr [Hps Hpe] Hev. rewrite (subperiods_aligned c a r n) by auto.
   unfold observable. apply filter_all_true. intros p Hp.
   apply in_map_iff in Hp. destruct Hp as [k [Hk Hin]]. subst p. apply in_seq in Hin. cbn [snd sub_k].
-  apply Z.leb_le. etransitivity; [|exact Hev]. rewrite Hpe. apply month_end_le; nia.
+  apply Z.leb_le. etransitivity; [|exact Hev]. rewrite Hpe. apply month_end_le. nia.
 Qed.
 
-(* windows of the original resolution, origin = the day before the cell's period *)
-Lemma window_of_sub a R r k :
-  1 <= a -> a + R <= 1572 -> 1 <= r -> 0 <= k -> (k + 1) * r <= R ->
-  window_of (RMonth R) (month_start a - 1) (fst (sub_k a r k)) = (month_start a, month_end (a + R - 1)).
+(* windows of the original resolution R on the grid with base month a0 (origin = the day before month a0):
+   the k-th sub-period of the cell occupying grid window p starts inside that window *)
+Lemma window_of_sub a0 p R r k :
+  MINID < a0 -> MINID <= a0 + p * R -> 1 <= r -> 0 <= k -> (k + 1) * r <= R ->
+  window_of (RMonth R) (month_start a0 - 1) (fst (sub_k (a0 + p * R) r k))
+  = (month_start (a0 + p * R), month_end (a0 + p * R + R - 1)).
 Proof.
-  intros Ha Hb Hr Hk Hkr. unfold window_of, sub_k. cbn [fst].
-  assert (E0 : month_start a - 1 = month_end (a - 1)) by (rewrite month_end_succ; f_equal; f_equal; lia).
-  rewrite E0. destruct (month_end_facts (a - 1) ltac:(lia)) as (E1 & _).
-  destruct (month_end_facts (a + k * r) ltac:(nia)) as (_ & _ & _ & E2 & _).
-  rewrite E1, E2. replace (a + k * r - (a - 1 + 1)) with (k * r) by lia.
-  rewrite Z.div_small by nia. f_equal; f_equal; lia.
+  intros Ha0 Ha Hr Hk Hkr. unfold window_of, sub_k. cbn [fst].
+  assert (E0 : month_start a0 - 1 = month_end (a0 - 1)) by (rewrite month_end_pred; f_equal; f_equal; lia).
+  rewrite E0, CalendarP.month_id_month_end by lia. rewrite CalendarP.month_id_month_start by nia.
+  replace (a0 + p * R + k * r - (a0 - 1 + 1)) with (k * r + p * R) by ring.
+  rewrite Z.div_add by nia. rewrite Z.div_small by nia. f_equal; f_equal; ring.
 Qed.
 
 (* ================================================================== 3. the adapter Q -> n/1024 *)
@@ -287,41 +265,44 @@ Proof.
   destruct l as [|y t]; [reflexivity|]. destruct H as [Hxy Ht]. rewrite (IH Ht). cbn [coord_insert]. rewrite Hxy. reflexivity.
 Qed.
 Lemma sub_cells_sorted fields c a (r : nat) : forall (n s : nat) wn cs',
-  1 <= a -> (0 < r)%nat -> a + Z.of_nat ((s + n) * r) <= 1572 -> length wn = n ->
+  (0 < r)%nat -> length wn = n ->
   Forall2 (sub_cell_ok fields c a (Z.of_nat r)) (combine (seq s n) wn) cs' -> adj_lt cs'.
 Proof.
-  induction n as [|n IH]; intros s wn cs' Ha Hr Hb Hl Hf.
+  induction n as [|n IH]; intros s wn cs' Hr Hl Hf.
   - simpl in Hf. inversion Hf. exact I.
   - destruct wn as [|w wn]; [discriminate|]. simpl in Hf. inversion Hf as [|kw c1 kws cs1 H1 Hrest]; subst.
-    assert (Hrec : adj_lt cs1).
-    { eapply (IH (S s) wn); eauto. replace (S s + n)%nat with (s + S n)%nat by lia. exact Hb. }
+    assert (Hrec : adj_lt cs1) by (eapply (IH (S s) wn); eauto).
     destruct cs1 as [|c2 cs2]; [exact I|]. split; [|exact Hrec].
     destruct n as [|n]; [simpl in Hrest; inversion Hrest|]. destruct wn as [|w2 wn]; [discriminate|].
     simpl in Hrest. inversion Hrest as [|kw2 c2' kws2 cs2' H2 _]; subst.
     destruct H1 as (P1 & _). destruct H2 as (P2 & _). cbn [fst] in P1, P2.
     unfold coord_ltb. rewrite P1, P2.
     assert (month_start (a + Z.of_nat s * Z.of_nat r) < month_start (a + Z.of_nat (S s) * Z.of_nat r)) as Hlt.
-    { apply month_start_lt; nia. }
+    { apply CalendarP.month_start_strict_mono. nia. }
     apply Z.ltb_lt in Hlt. rewrite Hlt. reflexivity.
 Qed.
 
 (* all sub-period cells fall into the window of the original period; none straddles *)
-Lemma sub_cells_window fields c a (r : nat) R : forall (n s : nat) wn cs',
-  1 <= a -> (0 < r)%nat -> a + R <= 1572 -> Z.of_nat ((s + n) * r) <= R -> aligned c a R ->
-  Forall2 (sub_cell_ok fields c a (Z.of_nat r)) (combine (seq s n) wn) cs' ->
-  Forall (fun c' => straddles (RMonth R) (ps c - 1) c' = false /\
-                    coord3 (to_window (RMonth R) (ps c - 1) c') = (ps c, pe c, ev c, None) /\
-                    cmeta c' = cmeta c) cs'.
+(* c' lies in the window of c on the grid (R, base a0): not straddling, re-labelled with c's period *)
+Definition win_ok (R a0 : Z) (c c' : cell) : Prop :=
+  straddles (RMonth R) (month_start a0 - 1) c' = false /\
+  ps (to_window (RMonth R) (month_start a0 - 1) c') = ps c /\
+  pe (to_window (RMonth R) (month_start a0 - 1) c') = pe c /\
+  ev c' = ev c /\ cmeta c' = cmeta c.
+Lemma sub_cells_window fields c a0 p (r : nat) R : forall (n s : nat) wn cs',
+  MINID < a0 -> MINID <= a0 + p * R -> (0 < r)%nat -> Z.of_nat ((s + n) * r) <= R -> aligned c (a0 + p * R) R ->
+  Forall2 (sub_cell_ok fields c (a0 + p * R) (Z.of_nat r)) (combine (seq s n) wn) cs' ->
+  Forall (win_ok R a0 c) cs'.
 Proof.
-  induction n as [|n IH]; intros s wn cs' Ha Hr Hb Hn [Hps Hpe] Hf.
+  induction n as [|n IH]; intros s wn cs' Ha0 Ha Hr Hn [Hps Hpe] Hf.
   - simpl in Hf. inversion Hf. constructor.
   - destruct wn as [|w wn]; simpl in Hf; [inversion Hf; constructor|].
     inversion Hf as [|kw c1 kws cs1 H1 Hrest]; subst. constructor.
     + destruct H1 as (P1 & P2 & P3 & P4 & _). cbn [fst] in P1, P2.
-      assert (W : window_of (RMonth R) (ps c - 1) (ps c1) = (ps c, pe c)).
-      { rewrite Hps, Hpe, P1. apply (window_of_sub a R (Z.of_nat r) (Z.of_nat s)); nia. }
-      unfold straddles, to_window, coord3. rewrite W. cbn [fst snd ps pe ev]. rewrite P3. repeat split; auto.
-      apply Z.ltb_ge. rewrite P2, Hpe. apply month_end_le; nia.
+      assert (W : window_of (RMonth R) (month_start a0 - 1) (ps c1) = (ps c, pe c)).
+      { rewrite Hps, Hpe, P1. apply (window_of_sub a0 p R (Z.of_nat r) (Z.of_nat s)); nia. }
+      unfold win_ok, straddles, to_window. rewrite W. cbn [fst snd ps pe]. repeat split; auto.
+      apply Z.ltb_ge. rewrite P2, Hpe. apply month_end_le. nia.
     + eapply (IH (S s) wn); eauto; try (split; auto). replace (S s + n)%nat with (s + S n)%nat by lia. exact Hn.
 Qed.
 
@@ -336,25 +317,81 @@ Proof.
   unfold getv. rewrite Eu. exact Su.
 Qed.
 
-(* groupby of a list whose keys are all the same *)
-Lemma groupby_one_key {A} (key : A -> Summarize.coord) k : forall l acc,
-  (forall x, In x l -> key x = k) ->
-  fold_left (fun d a => gb_insert Summarize.coord_eqb (key a) a d) l [(k, acc)] = [(k, acc ++ l)].
+(* from here on the calendar functions are only rewritten with the lemmas above, never unfolded *)
+Local Opaque month_start month_end month_id window_of addm.
+
+(* everything we need to know about the adapted sub-period cells of ONE original cell sitting in window p of the
+   grid with base month a0 and resolution R = n*r *)
+Lemma block_facts fields c a0 p (r n : nat) ws outs cs' :
+  let R := Z.of_nat (n * r) in
+  MINID < a0 -> MINID <= a0 + p * R -> (0 < r)%nat -> (0 < n)%nat ->
+  aligned c (a0 + p * R) R -> pe c <= ev c -> length ws = n -> ~ (qsum ws == 0)%Q ->
+  disagg_cell r n ws fields c = Ok outs ->
+  Forall2 (fun o c' => cell_of_ucell o = Some c') outs cs' ->
+  let wn := norm_weights ws in
+  length wn = n /\ cs' <> [] /\
+  Forall2 (sub_cell_ok fields c (a0 + p * R) (Z.of_nat r)) (combine (seq 0 n) wn) cs' /\
+  adj_lt cs' /\
+  Forall (win_ok R a0 c) cs'.
 Proof.
-  assert (R : Summarize.coord_eqb k k = true).
-  { destruct k as [[[k1 k2] k3] k4]. unfold Summarize.coord_eqb. rewrite !Z.eqb_refl.
-    destruct k4; simpl; [apply Z.eqb_refl|reflexivity]. }
-  induction l as [|x l IH]; intros acc H; simpl; [rewrite app_nil_r; reflexivity|].
-  rewrite (H x (or_introl eq_refl)), R. rewrite IH; [rewrite <- app_assoc; reflexivity|].
-  intros y Hy. apply H. right. exact Hy.
+  intros R Ha0 Ha Hr Hn Hal Hev Hlw Hsum Hd Hcs wn.
+  assert (Hsubs : observable c (subperiods r n c)
+                  = map (fun k : nat => sub_k (a0 + p * R) (Z.of_nat r) (Z.of_nat k)) (seq 0 n)).
+  { rewrite (observable_all c (a0 + p * R) r n Ha Hr Hal Hev). apply subperiods_aligned; [exact Ha|apply Hal]. }
+  unfold disagg_cell in Hd. rewrite Hsubs in Hd. rewrite map_length, seq_length in Hd.
+  assert (Hf : firstn n ws = ws) by (rewrite <- Hlw; apply firstn_all). rewrite Hf in Hd.
+  destruct (n =? 0)%nat eqn:En; [apply Nat.eqb_eq in En; lia|].
+  destruct (Qeq_bool (qsum ws) 0) eqn:Eq; [apply Qeq_bool_iff in Eq; contradiction|].
+  inversion Hd as [Houts]. clear Hd. symmetry in Houts. fold wn in Houts.
+  assert (Lwn : length wn = n) by (unfold wn; rewrite norm_weights_length; exact Hlw).
+  pose proof (sub_cells_ok fields c (a0 + p * R) r n 0%nat wn outs cs' Houts Hcs) as Hok.
+  split; [exact Lwn|]. split.
+  { intro E. subst cs'. destruct n; [lia|]. destruct wn; [discriminate|]. simpl in Hok. inversion Hok. }
+  split; [exact Hok|]. split.
+  - exact (sub_cells_sorted fields c (a0 + p * R) r n 0%nat wn cs' Hr Lwn Hok).
+  - apply (sub_cells_window fields c a0 p r R n 0%nat wn cs' Ha0 Ha Hr ltac:(simpl; unfold R; lia) Hal Hok).
 Qed.
 
-(* ================================================================== 6. aggregate o disaggregate *)
+(* the conforming sum over (any arrangement of) the sub-period cells of one original cell is the original value *)
+Lemma block_sum fields c a r f v kws g :
+  Units.mem_str f fields = true -> assoc f (cvals c) = Some v -> v <> VNone ->
+  Forall2 (sub_cell_ok fields c a r) kws g -> g <> [] -> (qsum (map snd kws) == 1)%Q ->
+  exists t, conforming_sum (raw f g) = Ok t /\ value_numeq t v.
+Proof.
+  intros Hm Ha Hn Hok Hne Hs.
+  pose proof (sub_cells_raw fields c a r f v kws g Hm Ha Hn Hok) as Hraw.
+  apply (conforming_sum_parts v (raw f g) (map snd kws) Hraw); auto.
+  destruct g; [congruence|discriminate].
+Qed.
+
+(* ================================================================== 6. plumbing of ref_slice, generically *)
+Lemma to_window_keeps r o c' : ev (to_window r o c') = ev c' /\ cmeta (to_window r o c') = cmeta c' /\
+                               cvals (to_window r o c') = cvals c'.
+Proof. unfold to_window. cbn. auto. Qed.
 Lemma raw_to_window r o f l : raw f (map (to_window r o) l) = raw f l.
-Proof. unfold raw. rewrite map_map. reflexivity. Qed.
+Proof. unfold raw. rewrite map_map. apply map_ext. intro c'. unfold getv. destruct (to_window_keeps r o c') as (_ & _ & ->). reflexivity. Qed.
 Lemma map_snd_combine_seq {B} : forall n s (l : list B), length l = n -> map snd (combine (seq s n) l) = l.
 Proof.
   induction n as [|n IH]; intros s [|x l] H; simpl in *; try discriminate; auto. f_equal. apply IH. lia.
+Qed.
+Lemma coord_eqb_refl3 k : Summarize.coord_eqb k k = true.
+Proof.
+  destruct k as [[[k1 k2] k3] k4]. unfold Summarize.coord_eqb. rewrite !Z.eqb_refl.
+  destruct k4; simpl; [apply Z.eqb_refl|reflexivity].
+Qed.
+Lemma groupby_fold_one_key {A} (key : A -> Summarize.coord) k : forall l acc,
+  (forall x, In x l -> key x = k) ->
+  fold_left (fun d a => gb_insert Summarize.coord_eqb (key a) a d) l [(k, acc)] = [(k, acc ++ l)].
+Proof.
+  induction l as [|x l IH]; intros acc H; simpl; [rewrite app_nil_r; reflexivity|].
+  rewrite (H x (or_introl eq_refl)), coord_eqb_refl3. rewrite IH; [rewrite <- app_assoc; reflexivity|].
+  intros y Hy. apply H. right. exact Hy.
+Qed.
+Lemma groupby_one_key {A} (key : A -> Summarize.coord) k x l :
+  (forall y, In y (x :: l) -> key y = k) -> groupby Summarize.coord_eqb key (x :: l) = [(k, x :: l)].
+Proof.
+  intro H. unfold groupby. cbn [fold_left gb_insert]. rewrite (H x (or_introl eq_refl)).
+  apply (groupby_fold_one_key key k l [x]). intros y Hy. apply H. right. exact Hy.
 Qed.
 
 Section Roundtrip.
@@ -362,14 +399,64 @@ Section Roundtrip.
   Variable rules : rule_table.
   Variable nl : list str.
 
-  (* c: a cumulative cell covering the months a .. a+n*r-1 (1970-2100), evaluated at or after its period end;
-     outs: its disaggregation into n sub-periods of r months with weights ws; cs': the same cells with values
-     in n/1024 units (exactly representable).  Aggregating cs' back at the original resolution n*r (window grid
-     aligned with the cell) by C08's loop-free specification gives, whenever it gives anything, exactly ONE cell:
-     the original period, evaluation date and metadata, and every additive field that was disaggregated carries
-     numerically the original value. *)
+  Lemma ref_slice_period r origin eo prem c1 cs1 :
+    ref_slice wavg rules nl (mkArgs (Some r) None origin eo prem) (c1 :: cs1)
+    = if existsb (straddles r origin) (sort_coords (c1 :: cs1)) then Err TriangleError
+      else Summarize.map_result (window_cell wavg rules nl prem)
+             (groupby Summarize.coord_eqb coord3 (map (to_window r origin) (sort_coords (c1 :: cs1)))).
+  Proof. reflexivity. Qed.
+  Lemma window_cell_single prem k g :
+    Summarize.map_result (window_cell wavg rules nl prem) [(k, g)]
+    = match g with
+      | [] => Err IndexError
+      | c0 :: _ => match summarize_cell_values wavg rules nl prem g with
+                   | Ok vals => Ok [mkCell KCum (ps c0) (pe c0) (ev c0) None (cmeta c0) vals]
+                   | Err e => Err e
+                   end
+      end.
+  Proof.
+    cbn [Summarize.map_result]. unfold window_cell. cbn [snd]. destruct g as [|c0 g']; [reflexivity|].
+    destruct (summarize_cell_values wavg rules nl prem (c0 :: g')); reflexivity.
+  Qed.
+
+  (* one group: all cells of l are re-labelled to the coordinates of c *)
+  Lemma one_window_slice R a0 c l eo prem out :
+    l <> [] -> adj_lt l -> Forall (win_ok R a0 c) l ->
+    ref_slice wavg rules nl (mkArgs (Some (RMonth R)) None (month_start a0 - 1) eo prem) l = Ok out ->
+    exists vals,
+      out = [mkCell KCum (ps c) (pe c) (ev c) None (cmeta c) vals] /\
+      summarize_cell_values wavg rules nl prem (map (to_window (RMonth R) (month_start a0 - 1)) l) = Ok vals.
+  Proof.
+    intros Hne Hsorted Hwin Href. destruct l as [|c1 cs1]; [congruence|].
+    rewrite ref_slice_period, (sort_coords_sorted_id _ Hsorted) in Href.
+    assert (Hns : existsb (straddles (RMonth R) (month_start a0 - 1)) (c1 :: cs1) = false).
+    { apply not_true_is_false. intro E. apply existsb_exists in E. destruct E as [x [Hx Sx]].
+      rewrite Forall_forall in Hwin. destruct (Hwin x Hx) as [Sx' _]. congruence. }
+    rewrite Hns in Href.
+    set (tw := to_window (RMonth R) (month_start a0 - 1)) in *.
+    assert (Hkeys : forall y, In y (map tw (c1 :: cs1)) -> coord3 y = (ps c, pe c, ev c, None)).
+    { intros y Hy. apply in_map_iff in Hy. destruct Hy as [x [<- Hx]]. rewrite Forall_forall in Hwin.
+      destruct (Hwin x Hx) as (_ & Q1 & Q2 & Q3 & _). unfold coord3. fold tw in Q1, Q2.
+      destruct (to_window_keeps (RMonth R) (month_start a0 - 1) x) as (E1 & _). fold tw in E1.
+      rewrite Q1, Q2, E1, Q3. reflexivity. }
+    cbn [map] in Href, Hkeys.
+    rewrite (groupby_one_key coord3 _ (tw c1) (map tw cs1) Hkeys), window_cell_single in Href.
+    destruct (summarize_cell_values wavg rules nl prem (tw c1 :: map tw cs1)) as [vals|e] eqn:Es; [|discriminate].
+    injection Href as <-. exists vals. split; [|cbn [map]; exact Es].
+    rewrite Forall_forall in Hwin. destruct (Hwin c1 (or_introl eq_refl)) as (_ & Q1 & Q2 & Q3 & Q4).
+    destruct (to_window_keeps (RMonth R) (month_start a0 - 1) c1) as (E1 & E2 & _).
+    unfold to_window in Q1, Q2. cbn [ps pe] in Q1, Q2. unfold tw, to_window. cbn [ps pe ev cmeta].
+    rewrite Q1, Q2, Q3, Q4. reflexivity.
+  Qed.
+
+  (* c: a cumulative cell covering the months a .. a+n*r-1 (any year >= 1 on the model side), evaluated at or
+     after its period end; outs: its disaggregation into n sub-periods of r months with weights ws; cs': the same
+     cells with values in n/1024 units (exactly representable).  Aggregating cs' back at the original resolution
+     n*r (window grid aligned with the cell) by C08's loop-free specification gives, whenever it gives anything,
+     exactly ONE cell: the original period, evaluation date and metadata, and every additive field that was
+     disaggregated carries numerically the original value. *)
   Theorem disaggregate_then_aggregate fields c a (r n : nat) ws outs cs' eo prem out :
-    1 <= a <= 1571 -> (0 < r)%nat -> (0 < n)%nat -> a + Z.of_nat (n * r) <= 1572 ->
+    MINID < a -> (0 < r)%nat -> (0 < n)%nat ->
     aligned c a (Z.of_nat (n * r)) -> pe c <= ev c ->
     length ws = n -> ~ (qsum ws == 0)%Q ->
     disagg_cell r n ws fields c = Ok outs ->
@@ -381,51 +468,220 @@ Section Roundtrip.
         In (f, v') vals -> lookup_rule rules f = Some (RSum f) ->
         (prem = true \/ Summarize.mem_str f nl = false) -> value_numeq v' v.
   Proof.
-    intros Ha Hr Hn Hb Hal Hev Hlw Hsum Hd Hcs Href.
-    (* 1. the disaggregation in closed form *)
-    assert (Hsubs : observable c (subperiods r n c) = map (fun k : nat => sub_k a (Z.of_nat r) (Z.of_nat k)) (seq 0 n)).
-    { rewrite (observable_all c a r n Ha Hr Hb Hal Hev). apply subperiods_aligned; [lia|apply Hal]. }
-    unfold disagg_cell in Hd. rewrite Hsubs in Hd. rewrite map_length, seq_length in Hd.
-    assert (Hf : firstn n ws = ws) by (rewrite <- Hlw; apply firstn_all). rewrite Hf in Hd.
-    destruct (n =? 0)%nat eqn:En; [apply Nat.eqb_eq in En; lia|].
-    destruct (Qeq_bool (qsum ws) 0) eqn:Eq; [apply Qeq_bool_iff in Eq; contradiction|].
-    inversion Hd as [Houts]. clear Hd. symmetry in Houts.
-    set (wn := norm_weights ws) in *.
-    assert (Lwn : length wn = n) by (unfold wn; rewrite norm_weights_length; exact Hlw).
-    (* 2. the adapted cells *)
-    pose proof (sub_cells_ok fields c a r n 0%nat wn outs cs' Houts Hcs) as Hok.
-    pose proof (sub_cells_sorted fields c a r n 0%nat wn cs' ltac:(lia) Hr ltac:(simpl; exact Hb) Lwn Hok) as Hsorted.
-    pose proof (sub_cells_window fields c a r (Z.of_nat (n * r)) n 0%nat wn cs' ltac:(lia) Hr Hb ltac:(simpl; lia) Hal Hok) as Hwin.
-    (* 3. unfold the specification *)
-    unfold ref_slice in Href. cbn [eval_res period_res period_origin summ_premium] in Href.
-    destruct cs' as [|c1 cs1].
-    { exfalso. destruct n; [lia|]. destruct wn; [discriminate|]. simpl in Hok. inversion Hok. }
-    rewrite (sort_coords_sorted_id _ Hsorted) in Href.
-    assert (Hns : existsb (straddles (RMonth (Z.of_nat (n * r))) (ps c - 1)) (c1 :: cs1) = false).
-    { apply not_true_is_false. intro E. apply existsb_exists in E. destruct E as [x [Hx Sx]].
-      rewrite Forall_forall in Hwin. destruct (Hwin x Hx) as [Sx' _]. congruence. }
-    rewrite Hns in Href.
-    set (tw := to_window (RMonth (Z.of_nat (n * r))) (ps c - 1)) in *.
-    assert (Hkeys : forall x, In x (map tw cs1) -> coord3 x = (ps c, pe c, ev c, None)).
-    { intros x Hx. apply in_map_iff in Hx. destruct Hx as [y [<- Hy]]. rewrite Forall_forall in Hwin.
-      apply (Hwin y). right. exact Hy. }
-    assert (Hk1 : coord3 (tw c1) = (ps c, pe c, ev c, None)).
-    { rewrite Forall_forall in Hwin. apply (Hwin c1). left. reflexivity. }
-    unfold groupby in Href. cbn [map fold_left] in Href. rewrite Hk1 in Href. cbn [gb_insert] in Href.
-    rewrite (groupby_one_key coord3 (ps c, pe c, ev c, None) (map tw cs1) [tw c1] Hkeys) in Href.
-    cbn [app] in Href. cbn [Summarize.map_result] in Href. unfold window_cell at 1 in Href. cbn [snd] in Href.
-    destruct (summarize_cell_values wavg rules nl prem (tw c1 :: map tw cs1)) as [vals|e] eqn:Es; [|discriminate].
-    inversion Href. subst out. clear Href. exists vals. split.
-    - rewrite Forall_forall in Hwin. destruct (Hwin c1 (or_introl eq_refl)) as (_ & _ & Hm).
-      unfold coord3 in Hk1. injection Hk1 as Q1 Q2 Q3.
-      f_equal. f_equal; try assumption.
-    - intros f v v' Hm Hav Hnn Hin Hrule Hprem.
-      pose proof (scv_sum_entry wavg rules nl prem (tw c1 :: map tw cs1) vals f v' Es ltac:(discriminate) Hin Hrule Hprem) as Hs.
-      change (tw c1 :: map tw cs1) with (map tw (c1 :: cs1)) in Hs. unfold tw in Hs. rewrite raw_to_window in Hs.
-      pose proof (sub_cells_raw fields c a (Z.of_nat r) f v _ _ Hm Hav Hnn Hok) as Hraw.
-      rewrite (map_snd_combine_seq n 0%nat wn Lwn) in Hraw.
-      destruct (conforming_sum_parts v (raw f (c1 :: cs1)) wn Hraw ltac:(discriminate)
-                  (norm_weights_sum ws Hsum)) as [t [Et Nt]].
-      rewrite Et in Hs. inversion Hs. subst. exact Nt.
+    intros Ha Hr Hn Hal Hev Hlw Hsum Hd Hcs Href.
+    set (R := Z.of_nat (n * r)) in *.
+    assert (Hal' : aligned c (a + 0 * R) R) by (replace (a + 0 * R) with a by ring; exact Hal).
+    destruct (block_facts fields c a 0 r n ws outs cs' Ha ltac:(fold R; lia) Hr Hn Hal' Hev Hlw Hsum Hd Hcs)
+      as (Lwn & Hne & Hok & Hsorted & Hwin).
+    fold R in Hok, Hwin.
+    assert (Eo : ps c - 1 = month_start a - 1) by (destruct Hal as [-> _]; reflexivity).
+    rewrite Eo in Href.
+    destruct (one_window_slice R a c cs' eo prem out Hne Hsorted Hwin Href) as [vals [Eout Es]].
+    exists vals. split; [exact Eout|].
+    intros f v v' Hm Hav Hnn Hin Hrule Hprem.
+    assert (Hne' : map (to_window (RMonth R) (month_start a - 1)) cs' <> []) by (destruct cs'; [congruence|discriminate]).
+    pose proof (scv_sum_entry wavg rules nl prem _ vals f v' Es Hne' Hin Hrule Hprem) as Hs.
+    rewrite raw_to_window in Hs.
+    destruct (block_sum fields c (a + 0 * R) (Z.of_nat r) f v _ _ Hm Hav Hnn Hok Hne) as [t [Et Nt]].
+    { rewrite (map_snd_combine_seq n 0%nat _ Lwn). apply norm_weights_sum. exact Hsum. }
+    rewrite Et in Hs. injection Hs as <-. exact Nt.
   Qed.
+
 End Roundtrip.
+
+(* ================================================================== 7. a whole slice: generic list facts *)
+Lemma coord_insert_perm x l : Permutation (coord_insert x l) (x :: l).
+Proof.
+  induction l as [|y t IH]; cbn [coord_insert]; [reflexivity|].
+  destruct (coord_ltb x y); [reflexivity|]. rewrite IH. apply perm_swap.
+Qed.
+Lemma sort_coords_perm l : Permutation (sort_coords l) l.
+Proof.
+  induction l as [|x l IH]; [reflexivity|]. cbn [sort_coords fold_right].
+  change (fold_right coord_insert [] l) with (sort_coords l). rewrite coord_insert_perm, IH. reflexivity.
+Qed.
+Lemma perm_filter {A} (p : A -> bool) l l' : Permutation l l' -> Permutation (filter p l) (filter p l').
+Proof.
+  induction 1 as [|x l l' H IH|x y l|l1 l2 l3 H1 IH1 H2 IH2]; cbn [filter].
+  - reflexivity.
+  - destruct (p x); [apply perm_skip|]; exact IH.
+  - destruct (p x), (p y); try reflexivity. apply perm_swap.
+  - etransitivity; eassumption.
+Qed.
+Lemma Forall2_perm_r {A B} (R : A -> B -> Prop) l2 l2' :
+  Permutation l2 l2' -> forall l1, Forall2 R l1 l2 -> exists l1', Permutation l1 l1' /\ Forall2 R l1' l2'.
+Proof.
+  induction 1 as [|y l2 l2' H IH|y z l2|la lb lc H1 IH1 H2 IH2]; intros l1 HF.
+  - inversion HF. subst. exists []. split; [reflexivity|constructor].
+  - inversion HF as [|x y' l1t l2t Hxy Ht]; subst. destruct (IH l1t Ht) as [l1' [P F]].
+    exists (x :: l1'). split; [apply perm_skip; exact P|constructor; assumption].
+  - inversion HF as [|x1 y' l1t l2t H1 Ht]; subst. inversion Ht as [|x2 z' l1t2 l2t2 H2 Ht2]; subst.
+    exists (x2 :: x1 :: l1t2). split; [apply perm_swap|repeat constructor; assumption].
+  - destruct (IH1 l1 HF) as [l1' [P1 F1]]. destruct (IH2 l1' F1) as [l1'' [P2 F2]].
+    exists l1''. split; [etransitivity; eassumption|exact F2].
+Qed.
+Lemma qsum_perm l l' : Permutation l l' -> (qsum l == qsum l')%Q.
+Proof.
+  induction 1 as [|x l l' H IH|x y l|l1 l2 l3 H1 IH1 H2 IH2]; cbn [qsum].
+  - reflexivity.
+  - rewrite IH. reflexivity.
+  - ring.
+  - etransitivity; eassumption.
+Qed.
+Lemma filter_map_comm {A B} (f : A -> B) p l : filter p (map f l) = map f (filter (fun x => p (f x)) l).
+Proof. induction l as [|x l IH]; cbn [map filter]; [reflexivity|]. destruct (p (f x)); cbn [map]; rewrite IH; reflexivity. Qed.
+Lemma filter_none {A} (p : A -> bool) l : (forall x, In x l -> p x = false) -> filter p l = [].
+Proof.
+  induction l as [|x l IH]; intro H; cbn [filter]; [reflexivity|]. rewrite (H x (or_introl eq_refl)). apply IH.
+  intros y Hy. apply H. right. exact Hy.
+Qed.
+(* a concatenation of blocks with pairwise different keys, filtered by "belongs to the block with key K" *)
+Lemma filter_concat_block {A X} (key : A -> X) (items : A -> list cell) (q : cell -> bool) (K : X) :
+  forall blocks b,
+  NoDup (map key blocks) -> In b blocks -> key b = K ->
+  (forall b' x, In b' blocks -> In x (items b') -> q x = true <-> key b' = K) ->
+  filter q (concat (map items blocks)) = items b.
+Proof.
+  induction blocks as [|h t IH]; intros b Hnd Hin HK Hq; [destruct Hin|].
+  cbn [map concat]. rewrite filter_app. cbn [map] in Hnd. inversion Hnd as [|k ks Hnotin Hnd']; subst.
+  destruct Hin as [->|Hin].
+  - rewrite (filter_all_true q (items b)) by (intros x Hx; apply (Hq b x (or_introl eq_refl) Hx); reflexivity).
+    rewrite filter_none; [apply app_nil_r|].
+    intros x Hx. apply in_concat in Hx. destruct Hx as [l [Hl Hxl]]. apply in_map_iff in Hl.
+    destruct Hl as [b' [<- Hb']]. destruct (q x) eqn:E; [|reflexivity]. exfalso.
+    apply (Hq b' x (or_intror Hb') Hxl) in E. apply Hnotin. rewrite <- E. apply in_map. exact Hb'.
+  - rewrite filter_none.
+    + cbn [app]. apply IH; auto. intros b' x Hb' Hx. apply Hq; [right; exact Hb'|exact Hx].
+    + intros x Hx. destruct (q x) eqn:E; [|reflexivity]. exfalso.
+      apply (Hq h x (or_introl eq_refl) Hx) in E. apply Hnotin. rewrite E. apply in_map. exact Hin.
+Qed.
+
+Section RoundtripSlice.
+  Variable wavg : transform -> list value -> list value -> result value.
+  Variable rules : rule_table.
+  Variable nl : list str.
+
+  Lemma ref_slice_period' r origin eo prem l :
+    ref_slice wavg rules nl (mkArgs (Some r) None origin eo prem) l
+    = match l with
+      | [] => Ok []
+      | _ :: _ => if existsb (straddles r origin) (sort_coords l) then Err TriangleError
+                  else Summarize.map_result (window_cell wavg rules nl prem)
+                         (groupby Summarize.coord_eqb coord3 (map (to_window r origin) (sort_coords l)))
+      end.
+  Proof. destruct l; reflexivity. Qed.
+
+  (* one original cell of the slice with its adapted sub-period cells, on the grid (R = n*r, base month a0) *)
+  Definition block_ok (fields : list str) (a0 : Z) (r n : nat) (b : cell * list cell) : Prop :=
+    exists p ws outs,
+      MINID <= a0 + p * Z.of_nat (n * r) /\ aligned (fst b) (a0 + p * Z.of_nat (n * r)) (Z.of_nat (n * r)) /\
+      pe (fst b) <= ev (fst b) /\ length ws = n /\ ~ (qsum ws == 0)%Q /\
+      disagg_cell r n ws fields (fst b) = Ok outs /\
+      Forall2 (fun o c' => cell_of_ucell o = Some c') outs (snd b).
+
+  (* A slice of fully observable month-aligned cells on one period grid (base month a0, resolution n*r; any number
+     of periods and evaluation dates, pairwise different coordinates), every cell disaggregated into n sub-periods
+     (weights may differ from cell to cell) and adapted; `blocks` pairs each original cell with its sub-period
+     cells.  Re-aggregating ALL sub-period cells of the slice at the original resolution returns, whenever it
+     returns anything, exactly the original cells: one output cell per original coordinate and vice versa, with
+     the original metadata, each original cell's sub-periods landing in its own window, and every disaggregated
+     additive field numerically equal to the original value. *)
+  Theorem disaggregate_then_aggregate_slice fields a0 (r n : nat) blocks eo prem out :
+    MINID < a0 -> (0 < r)%nat -> (0 < n)%nat ->
+    Forall (block_ok fields a0 r n) blocks ->
+    NoDup (map (fun b => coord3 (fst b)) blocks) ->
+    ref_slice wavg rules nl (mkArgs (Some (RMonth (Z.of_nat (n * r)))) None (month_start a0 - 1) eo prem)
+              (concat (map snd blocks)) = Ok out ->
+    NoDup (map coord3 out) /\
+    (forall b, In b blocks -> exists o, In o out /\ coord3 o = coord3 (fst b)) /\
+    (forall o, In o out ->
+       exists b, In b blocks /\ coord3 o = coord3 (fst b) /\ ckind o = KCum /\ cmeta o = cmeta (fst b) /\
+         forall f v v', Units.mem_str f fields = true -> assoc f (cvals (fst b)) = Some v -> v <> VNone ->
+           In (f, v') (cvals o) -> lookup_rule rules f = Some (RSum f) ->
+           (prem = true \/ Summarize.mem_str f nl = false) -> value_numeq v' v).
+  Proof.
+    intros Ha0 Hr Hn Hblocks Hnd Href.
+    set (R := Z.of_nat (n * r)) in *. set (tw := to_window (RMonth R) (month_start a0 - 1)) in *.
+    (* facts per block *)
+    assert (HB : forall b, In b blocks ->
+               snd b <> [] /\ Forall (win_ok R a0 (fst b)) (snd b) /\
+               exists kws a, (qsum (map snd kws) == 1)%Q /\
+                             Forall2 (sub_cell_ok fields (fst b) a (Z.of_nat r)) kws (snd b)).
+    { intros b Hb. rewrite Forall_forall in Hblocks.
+      destruct (Hblocks b Hb) as (p & ws & outs & H1 & H2 & H3 & H4 & H5 & H6 & H7).
+      destruct (block_facts fields (fst b) a0 p r n ws outs (snd b) Ha0 H1 Hr Hn H2 H3 H4 H5 H6 H7)
+        as (Lwn & Hne & Hok & _ & Hwin).
+      split; [exact Hne|]. split; [exact Hwin|].
+      exists (combine (seq 0 n) (norm_weights ws)), (a0 + p * Z.of_nat (n * r)). split; [|exact Hok].
+      rewrite (map_snd_combine_seq n 0%nat _ Lwn). apply norm_weights_sum. exact H5. }
+    assert (Hcoord : forall b x, In b blocks -> In x (snd b) -> coord3 (tw x) = coord3 (fst b)).
+    { intros b x Hb Hx. destruct (HB b Hb) as (_ & Hwin & _). rewrite Forall_forall in Hwin.
+      destruct (Hwin x Hx) as (_ & Q1 & Q2 & Q3 & _).
+      destruct (to_window_keeps (RMonth R) (month_start a0 - 1) x) as (E1 & _).
+      unfold coord3, tw. rewrite Q1, Q2, E1, Q3. reflexivity. }
+    assert (Hin_all : forall b x, In b blocks -> In x (snd b) -> In x (concat (map snd blocks))).
+    { intros b x Hb Hx. apply in_concat. exists (snd b). split; [apply in_map; exact Hb|exact Hx]. }
+    assert (Hall_block : forall x, In x (concat (map snd blocks)) -> exists b, In b blocks /\ In x (snd b)).
+    { intros x Hx. apply in_concat in Hx.
+      destruct Hx as [lb [Hlb Hxl]]. apply in_map_iff in Hlb. destruct Hlb as [b [<- Hb]]. eauto. }
+    assert (Hfilter : forall b K, In b blocks -> coord3 (fst b) = K ->
+              filter (fun x : cell => Summarize.coord_eqb (coord3 (tw x)) K) (concat (map snd blocks)) = snd b).
+    { intros b K Hb HK. apply (filter_concat_block (fun b => coord3 (fst b)) snd _ K blocks b Hnd Hb HK).
+      intros b' x' Hb' Hx'. cbv beta. rewrite (Hcoord b' x' Hb' Hx'). exact (SummarizeLib.coord_eqb_eq _ _). }
+    remember (concat (map snd blocks)) as all eqn:Eall.
+    destruct all as [|x0 rest].
+    { rewrite ref_slice_period' in Href. cbv iota in Href. injection Href as <-.
+      split; [constructor|]. split; [|intros o []].
+      intros b Hb. exfalso. destruct (HB b Hb) as (Hne & _).
+      destruct (snd b) as [|y ys] eqn:Eb; [congruence|]. apply (Hin_all b y Hb). rewrite Eb. left. reflexivity. }
+    rewrite (ref_slice_period wavg rules nl) in Href. remember (x0 :: rest) as al eqn:Eal.
+    destruct (existsb (straddles (RMonth R) (month_start a0 - 1)) (sort_coords al)); [discriminate|].
+    fold tw in Href. set (l := map tw (sort_coords al)) in *.
+    destruct (windows_one_cell_each wavg rules nl prem l out Href) as [Hkeys Hmem].
+    assert (Hl_in : forall y, In y l <-> exists x, In x al /\ y = tw x).
+    { intro y. unfold l. rewrite in_map_iff. split.
+      - intros [x [<- Hx]]. exists x. split; [apply sort_coords_In; exact Hx|reflexivity].
+      - intros [x [Hx ->]]. exists x. split; [reflexivity|apply sort_coords_In; exact Hx]. }
+    split; [|split].
+    - rewrite Hkeys. apply dedupe_NoDup. exact SummarizeLib.coord_eqb_eq.
+    - intros b Hb. destruct (HB b Hb) as (Hne & _). destruct (snd b) as [|x xs] eqn:Eb; [congruence|].
+      assert (Hx : In x (snd b)) by (rewrite Eb; left; reflexivity).
+      assert (Hk : In (coord3 (fst b)) (map coord3 out)).
+      { rewrite Hkeys. apply dedupe_In; [exact SummarizeLib.coord_eqb_eq|]. rewrite <- (Hcoord b x Hb Hx). apply in_map.
+        apply Hl_in. exists x. split; [apply (Hin_all b x Hb Hx)|reflexivity]. }
+      apply in_map_iff in Hk. destruct Hk as [o [Ho Hin]]. exists o. split; assumption.
+    - intros o Ho. destruct (Hmem o Ho) as (Hkind & (c0 & rest0 & Hg & Hmeta) & Hscv).
+      (* the block this output cell belongs to *)
+      assert (Hk : In (coord3 o) (map coord3 l)).
+      { apply (dedupe_In Summarize.coord_eqb SummarizeLib.coord_eqb_eq). rewrite <- Hkeys. apply in_map. exact Ho. }
+      apply in_map_iff in Hk. destruct Hk as [y [Hy Hyl]]. apply Hl_in in Hyl. destruct Hyl as [x [Hx ->]].
+      destruct (Hall_block x Hx) as [b [Hb Hxb]]. rewrite (Hcoord b x Hb Hxb) in Hy.
+      exists b. split; [exact Hb|]. split; [symmetry; exact Hy|]. split; [exact Hkind|].
+      (* the group of o is a permutation of b's sub-period cells *)
+      set (K := coord3 o) in *.
+      set (q := fun x : cell => Summarize.coord_eqb (coord3 (tw x)) K).
+      assert (Hgq : members Summarize.coord_eqb coord3 l K = map tw (filter q (sort_coords al))).
+      { unfold members, l. rewrite filter_map_comm. reflexivity. }
+      assert (Hperm : Permutation (filter q (sort_coords al)) (snd b)).
+      { rewrite (perm_filter q _ _ (sort_coords_perm al)). unfold q. rewrite (Hfilter b K Hb Hy). reflexivity. }
+      destruct (HB b Hb) as (Hne & Hwin & kws & a & Hsum & Hok).
+      destruct (Forall2_perm_r _ _ _ (Permutation_sym Hperm) kws Hok) as [kws' [Pk Hok']].
+      set (g0 := filter q (sort_coords al)) in *.
+      assert (Hg0ne : g0 <> []).
+      { intro E. rewrite E in Hperm. apply Permutation_nil in Hperm. congruence. }
+      split.
+      + (* metadata: the head of the group is one of b's sub-period cells *)
+        rewrite Hmeta. rewrite Hgq in Hg. destruct g0 as [|z zs] eqn:Eg0; [congruence|].
+        cbn [map] in Hg. injection Hg as <- _.
+        destruct (to_window_keeps (RMonth R) (month_start a0 - 1) z) as (_ & E2 & _). fold tw in E2. rewrite E2.
+        assert (Hz : In z (snd b)) by (apply (Permutation_in z Hperm); left; reflexivity).
+        rewrite Forall_forall in Hwin. destruct (Hwin z Hz) as (_ & _ & _ & _ & Q4). exact Q4.
+      + intros f v v' Hm Hav Hnn Hin Hrule Hprem.
+        assert (Hgne : members Summarize.coord_eqb coord3 l K <> []) by (rewrite Hg; discriminate).
+        pose proof (scv_sum_entry wavg rules nl prem _ (cvals o) f v' Hscv Hgne Hin Hrule Hprem) as Hs.
+        rewrite Hgq in Hs. unfold tw in Hs. rewrite raw_to_window in Hs.
+        destruct (block_sum fields (fst b) a (Z.of_nat r) f v kws' g0 Hm Hav Hnn Hok' Hg0ne) as [t [Et Nt]].
+        { rewrite <- (qsum_perm _ _ (Permutation_map snd Pk)). exact Hsum. }
+        rewrite Et in Hs. injection Hs as <-. exact Nt.
+  Qed.
+End RoundtripSlice.
